@@ -542,6 +542,26 @@ func execBack(cfg *Cfg, o *harness.Outcome, clk *sim.Clock, lis *listener) {
 			o.Fail("C03.reopened-without-a-failure-after-clock-step-back", 0, "breaker %+v: closed by its successful probe behind a clock step back of %d ms (statistics cleared); two successful requests followed and the listeners heard %v - no request has failed since the breaker closed", r.BreakerRule, cfg.BackMs, lis.log)
 			return
 		}
+		// ... and failing requests open it again, for its retry timeout counted from THIS opening (the clock is
+		// still behind the deadline of the open period before)
+		for i := 0; i < int(r.MinReq)+5 && len(lis.log) == 3; i++ {
+			if !request(true, r.MaxRt+10) || o.Failed() {
+				break
+			}
+		}
+		if o.Failed() {
+			return
+		}
+		if len(lis.log) == 4 && last() == (lev{r.ID, model.Closed, model.Open}) {
+			opened := clk.NowMs()
+			clk.AdvanceMs(r.RetryMs + 1)
+			o.SimMs += r.RetryMs + 1
+			if !request(false, 1) && !o.Failed() {
+				o.Fail("C03.open-beyond-its-retry-timeout-after-clock-step-back", 0, "breaker %+v: opened again at a clock that had been set back by %d ms (%d ms before the instant its previous open period had begun); %d ms later - its retry timeout - the request is still rejected: the breaker waits for the retry deadline of the open period BEFORE (listeners heard %v)", r.BreakerRule, cfg.BackMs, before-opened, r.RetryMs+1, lis.log)
+			}
+			return
+		}
+		return
 	}
 	// once the clock has caught up and a full retry timeout has passed, the resource serves a request again
 	clk.AdvanceMs(cfg.BackMs + 2*r.RetryMs + r.StatMs)
